@@ -198,21 +198,21 @@ def rule_provenance(repo, rep, vela):
 
     ext = {
         "os.path.sep": "/", "os.sep": "/", "os.R_OK": 4,
-        "os.path.normpath": lambda i, a, k, n: a[0],
+        "os.path.normpath": lambda i, a, k, n: (__import__("posixpath").normpath(a[0]) if isinstance(a[0], str) else a[0]),  # drops a leading "./"
         "os.path.join": _join,
         "CONFIG_FILES_PATH": "<BUNDLED>",
     }
     it = Interp(repo, vela, externs=ext)
     cases = [("Arm/vela.ini", "<BUNDLED>/Arm/vela.ini", "Dir/file.ini resolves inside the bundled config_files directory, whatever exists in the working directory"),
              ("/abs/dir/my.ini", "/abs/dir/my.ini", "an absolute path is taken as given"),
-             ("./Arm/vela.ini", "./Arm/vela.ini", "an explicit relative path is taken as given"),
+             ("./Arm/vela.ini", "Arm/vela.ini|./Arm/vela.ini", "an explicit relative path is taken as given (never looked up in the bundled directory)"),
              ("a/b/c.ini", "a/b/c.ini", "a deeper relative path is taken as given")]
     for name, want, text in cases:
         rets = set()
         for p_ in it.run("main._parse_config", lambda name=name: ([name], {})):
             if p_.kind == "return":
                 rets.add(p_.value if isinstance(p_.value, str) else getattr(p_.value, "text", repr(p_.value)))
-        rep.check(rets == {want}, "C18-a", f"{VP}:main._parse_config", f"`{name}`: {text}", f"returning paths give {sorted(rets)} (expected only {want})")
+        rep.check(bool(rets) and rets <= set(want.split("|")), "C18-a", f"{VP}:main._parse_config", f"`{name}`: {text}", f"returning paths give {sorted(rets)} (expected only {want})")
     for p_ in it.run("main._parse_config", lambda: (["Arm/vela.txt"], {})):
         rep.check(p_.kind == "raise", "C18-a", f"{VP}:main._parse_config", "a name without the .ini extension is rejected", f"{p_.kind}")
     cf = vela.assign("CONFIG_FILES_PATH")
